@@ -1212,8 +1212,10 @@ func genPrivate(r *Rng, idx int, tier string, step func(op string) string) {
 		case roll < 62:
 			p := live[r.Intn(len(live))]
 			do(fmt.Sprintf("msg p=%d t=port port=%d", p.k, r.Pick(0, 6881, 65535)))
-		case roll < 70:
+		case roll < 67:
 			do("magnet")
+		case roll < 70:
+			do("announce") // the user asks for an announce now (trackers; and the DHT for a torrent that uses it)
 		case roll < 73 && ntrk > 0:
 			do("reload")
 		case roll < 78:
@@ -1244,6 +1246,10 @@ func genPrivate(r *Rng, idx int, tier string, step func(op string) string) {
 		}
 	}
 	step("magnet")
+	if r.Chance(40) {
+		// a handle that outlives its torrent: the torrent is removed, then its magnet link is asked for
+		step("magnet gone=1")
+	}
 }
 
 func init() {
